@@ -159,4 +159,11 @@ PROPS = {
         trusted_base=COMMON_TB + ['Conform.v (specification of conforming payloads; a corruption counts only if Conform.conforms says the corrupted payload no longer conforms: checker spec_gen)', 'Codegen.v and Serde.v, tied to the real generator and to rustc+serde on every run (corr_gen, corr_serde)', 'custom scalars are consumer-supplied (serde_json::Value here, which takes null): null is not probed there; Int is i64 in the generated code, so a 64-bit integer at an Int position is not a kind error'],
         assumptions=['programs whose module rustc refuses are not judged here (C02)'],
     ),
+    "C04": dict(
+        coq_props=['Properties/C04.v'],
+        run_modules=['RunVars.v'],
+        harness_cmd='c04',
+        trusted_base=COMMON_TB + ["VarSpec.v is the SPECIFICATION of a valid input value / variables object (kind-level scalars: Int and Float as JSON numbers, ID as string; enum values; input-object keys among the schema's field names with absent members only where nullable; @oneOf exactly one non-null member)", 'Codegen.v and Serde.v tied to the real generator and to rustc+serde on every run (RunVars.corr_gen, corr_serde); Variables values are obtained by deserializing reference assignments (variables_derives = Deserialize) in the consumer crate and pass through the real Op::build_query and serde_json::to_value', "values that JSON cannot express are outside the model: a non-finite f64 is written as null by serde_json, also at a non-null Float position; custom scalars write whatever the consumer's type writes (serde_json::Value here)", 'an operation without variables serialises `variables: null` (unit struct), which GraphQL-over-HTTP treats as no variables: counted as the empty object'],
+        assumptions=['programs whose module rustc refuses are not judged here (C02)'],
+    ),
 }
